@@ -182,7 +182,20 @@ def run(pid, tier, seed, replay, mode):
             rows = missing_rows(rs, scope, dom, tier)
             exh = False
         X = np.array([G.np_row(c, width, points) for c in rows], dtype=np.float32)
-        L, LL, E = impl_eval(root, X)
+        try:
+            L, LL, E = impl_eval(root, X)
+        except Exception as e:      # a valid circuit and rows of in-domain / out-of-support values: inference must not raise
+            bad_row = None
+            for x in X:
+                try:
+                    impl_eval(root, x[None, :])
+                except Exception:
+                    bad_row = [None if np.isnan(t) else float(t) for t in x]; break
+            nraise = dist.get("inference_raised", 0); dist["inference_raised"] = nraise + 1
+            if nraise < 3:
+                rep.violation(dict(kind="inference-raised-on-a-valid-circuit", circuit=tab.brief(), row=bad_row,
+                                   error=f"{type(e).__name__}: {e}"), True)
+            continue
         cases.append(dict(root=root, tab=tab, dom=dom, width=width, rows=rows, L=L, LL=LL, E=E, exh=exh, points=points))
         d = tab.describe()
         for k, v in d["kinds"].items():
